@@ -76,6 +76,7 @@ def exec_call(call, limit):
         if base.tree_ok(n, out["children"]):
             out["lin"] = [[int(x) for x in s_] for s_ in tree.get_path()]
             out["ssa"] = [[int(x) for x in s_] for s_ in tree.get_ssa_path()]
+            out.update(base.ordered_paths(tree, n))
         return out
 
     warns = []
